@@ -287,6 +287,43 @@ theorem remove_is_the_source_u32 {D : Type} (g : Rng D) (fuel e sz cap : Nat) (a
   ⟨fun hc => remove_dense_32_eq g fuel e sz cap a hc d, fun bits hb => remove_heap_32_eq g fuel e sz cap bits a he hb hn d,
    fun bits hb => remove_big_32_eq g fuel e sz cap bits a hb hn d⟩
 
+/-! ### the source's `contains`, whole: dispatch on the representation, then the translated arm -/
+
+/-- `SetU32::contains` as it is in the current source: `internal()` tells the five views apart (modelled by the
+constructors of `Rp` and the `bits` word: 32 dense, 1..31 bitmap table, otherwise plain table), then the arm's code
+as translated on every run -/
+def srcContains32 : Rp → Nat → Bool
+  | .empty, _ => false
+  | .stack t, e => Gen.tiny_contains_32 t.sz t.bits e
+  | .heap _ _ bits a, e =>
+    if bits = 32 then Gen.contains_dense_32 e a
+    else if 0 < bits ∧ bits < 32 then Gen.contains_heap_32 e bits a
+    else Gen.contains_big_32 e bits a
+
+/-- it is the model's `contains` on every well-formed representation … -/
+theorem source_contains_is_model_u32 {r : Rp} (wf : WF cfg32 r) (e : Nat) (he : e < 2 ^ 32)
+    (hn : capacity r < 2 ^ 32) : srcContains32 r e = contains cfg32 r e := by
+  cases r with
+  | empty => rfl
+  | stack t => exact tiny_contains_32_eq t e he
+  | heap sz cap bits a =>
+    simp only [srcContains32]
+    split
+    · rename_i hb
+      subst hb
+      exact contains_dense_32_eq e sz cap a (heap_cap_of_wf cfg32_ok wf).1
+    · split
+      · rename_i hb
+        exact contains_heap_32_eq e sz cap bits a he hb (by have := (heap_cap_of_wf cfg32_ok wf).1; simp [capacity] at hn; omega)
+      · exact contains_big_32_eq e sz cap bits a (by omega) (by have := (heap_cap_of_wf cfg32_ok wf).1; simp [capacity] at hn; omega)
+
+/-- … hence **membership**: the `contains` of the current source, run on the words of any well-formed set (every
+layout), answers true exactly for the members -/
+theorem source_contains_is_membership_u32 {r : Rp} (wf : WF cfg32 r) (e : Nat) (he : e < 2 ^ 32)
+    (hn : capacity r < 2 ^ 32) : srcContains32 r e = true ↔ e ∈ elems cfg32 r := by
+  rw [source_contains_is_model_u32 wf e he hn]
+  exact contains_refines cfg32_ok wf e he
+
 end C02
 
 #print axioms C02.insert_refines_u32
